@@ -94,6 +94,8 @@ def do_import(out_dir: Path, prop: str):
 def do_run(sid: str, extra_props):
     d = VERIF / "seeded" / sid
     meta = json.loads((d / "meta.json").read_text())
+    outd = Path(os.environ.get("VERIF_SEEDED_OUT", str(VERIF / "seeded"))) / sid   # where result.json / replays are kept
+    outd.mkdir(parents=True, exist_ok=True)
     props = [meta["property"]] + [p for p in extra_props if p != meta["property"]]
     reset_wt()
     if not apply_patch(d / "patch.diff"):
@@ -111,10 +113,12 @@ def do_run(sid: str, extra_props):
         for l in viol:
             rp = l.split("replay=")[1].split()[0]
             if os.path.exists(rp):
-                shutil.copy(rp, d / f"replay_{prop}.json")
+                shutil.copy(rp, outd / f"replay_{prop}.json")
                 break
         print(sid, prop, "DETECTED" if res[prop]["detected"] else "MISSED", res[prop]["lines"][-2:])
-    (d / "result.json").write_text(json.dumps(res, indent=1))
+    old = json.loads((outd / "result.json").read_text()) if (outd / "result.json").exists() else {}
+    old.update(res)
+    (outd / "result.json").write_text(json.dumps(old, indent=1))
     reset_wt()
     # the build tree now holds tables of the patched tree: rebuild for /repo
     sh([str(VERIF / "bin" / "check"), "setup-incremental"], cwd=str(VERIF))
